@@ -281,10 +281,11 @@ void ObjectFile::invalidate()
 }
 
 // Refresh the object if necessary
-void ObjectFile::refresh(bool isFirstTime /* = false */)
+void ObjectFile::refresh(bool isFirstTime /* = false */, bool isAborting /* = false */)
 {
-	// Check if we're in the middle of a transaction
-	if (inTransaction)
+	// Check if we're in the middle of a transaction (the reload that ends an
+	// aborted transaction is part of that transaction)
+	if (inTransaction && !isAborting)
 	{
 		DEBUG_MSG("The object is in a transaction");
 
@@ -334,7 +335,7 @@ void ObjectFile::refresh(bool isFirstTime /* = false */)
 
 	// Another thread may have started a transaction on this object since the
 	// check at the top; its pending changes must not be thrown away
-	if (inTransaction)
+	if (inTransaction && !isAborting)
 	{
 		DEBUG_MSG("The object is in a transaction");
 
@@ -868,6 +869,15 @@ bool ObjectFile::abortTransaction()
 
 			return false;
 		}
+	}
+
+	// Force reload from disk while the object still counts as being in this
+	// transaction: otherwise another thread can start its own transaction before
+	// the rejected changes are gone, and commit them
+	refresh(true, true);
+
+	{
+		MutexLocker lock(objectMutex);
 
 		transactionLockFile->unlock();
 
@@ -875,9 +885,6 @@ bool ObjectFile::abortTransaction()
 		transactionLockFile = NULL;
 		inTransaction = false;
 	}
-
-	// Force reload from disk
-	refresh(true);
 
 	return true;
 }
